@@ -15,3 +15,20 @@ def gen_rels():
     if rc != 0:
         return False, "genrels: " + out[-1500:]
     return True, ""
+
+
+def gen_tables():
+    import gen_tables as gt
+    return gt.generate(vc.REPO, os.path.join(vc.COQ, "gen"))
+
+
+def gocc_regeneration():
+    """C14, last clause: the checked-in lexer/parser/token/errors/util files are what gocc produces from sexpr.bnf."""
+    import gen_tables as gt
+    import tempfile
+    scratch = tempfile.mkdtemp(prefix="verif-gocc-")
+    try:
+        return gt.check_gocc(vc.REPO, scratch)
+    finally:
+        import shutil
+        shutil.rmtree(scratch, ignore_errors=True)
